@@ -531,6 +531,58 @@ fn main() {
             break;
         }
     }
+    // Long linear histories (no branching; every history of the listed family is run): the
+    // receiver's and the sender's stores are bounded (100 snapshots), which no short history
+    // reaches. `n` snapshots are sent and delivered in order; acknowledgements are delivered
+    // never, every `k`-th tick, or only once after `k` ticks.
+    if run.num_violations() == 0 {
+        let mut long_total = 0u64;
+        let cfg = Cfg { worlds: vec![1, 2, 6, 7], ticks: 255, drops: 0, dups: 0, acks: 255, cap: 8 };
+        let label = cfg.label();
+        let m = M { cfg, run: run.clone(), worlds: worlds(), stats: Stats::default(), samples: Mutex::new(Vec::new()) };
+        let lens: &[usize] = if run.tier == Tier::Thorough { &[99, 100, 101, 102, 103, 130, 201, 205, 250] } else { &[101, 103, 205] };
+        'outer: for &n in lens {
+            for ack_every in [0usize, 1, 7, 50, 100, 101] {
+                for once in [false, true] {
+                    if once && ack_every < 2 {
+                        continue;
+                    }
+                    let mut s = m.init_states().pop().unwrap();
+                    s.ticks_left = 255;
+                    s.acks_left = 255;
+                    let mut script: Vec<Act> = Vec::new();
+                    for i in 0..n {
+                        script.push(Act::Send([1u8, 2, 6, 7][(i * 7 + i / 3) % 4]));
+                        // all parts of this tick, in order
+                        script.push(Act::DeliverMsg(255));
+                        let ack_now = ack_every != 0 && if once { i + 1 == ack_every } else { (i + 1) % ack_every == 0 };
+                        if ack_now {
+                            script.push(Act::AckEmit);
+                            script.push(Act::DeliverAck(0));
+                        }
+                    }
+                    for a in script {
+                        let acts: Vec<Act> = if a == Act::DeliverMsg(255) { (0..s.msgs.len()).map(|_| Act::DeliverMsg(0)).collect() } else { vec![a] };
+                        for a in acts {
+                            long_total += 1;
+                            match m.apply(&s, a) {
+                                Some(n) => s = n,
+                                None => continue 'outer, // known finding prunes the branch
+                            }
+                            if s.bad {
+                                break 'outer;
+                            }
+                        }
+                    }
+                    // (a receiver that has dropped the base the sender still uses reports an error - allowed;
+                    // how many were accepted is only recorded)
+                    run.class(&format!("long-history:{}:{}", if ack_every == 0 { "never-acked" } else if once { "acked-once" } else { "acked-regularly" }, if s.accepted.len() == n { "all-accepted" } else { "some-refused" }), || json!({"snapshots": n, "ack_every": ack_every, "accepted": s.accepted.len()}));
+                }
+            }
+        }
+        total_trans += long_total;
+        run.set("long_history_steps", json!(long_total));
+    }
     run.set("states", json!(total_states));
     run.set("transitions", json!(total_trans));
     run.set("traces_validated_against_impl", json!(validated));
@@ -543,7 +595,7 @@ fn main() {
     run.assume("the state key of the real Storage/Manager objects is the hash of the complete history of operations applied to each (they are deterministic functions of it); states are therefore merged only when both objects have identical histories and the channels/budgets agree - an over-fine key, which costs states but cannot hide any");
     run.assume("the sender follows the storage API exactly as server/src/main.rs does (new_builder, add, finish, add_snap, Delta::write, delta_chunks); the receiver acknowledges ack_tick() or -1");
     run.finish(
-        "explicit-state exploration (stateright BFS) of a real sender Storage and a real receiver Manager joined by lossy/duplicating/reordering channels for snapshot messages and acknowledgements; worlds include ordinal items, two UUID types of different sizes a 300-word item that forces a multi-part transfer, and three different worlds with equal checksums; whenever the receiver accepts a tick its snapshot equals the sender's through items() and item(type,id); on error the acknowledged tick does not move to that tick; nothing panics",
+        "explicit-state exploration (stateright BFS) of a real sender Storage and a real receiver Manager joined by lossy/duplicating/reordering channels for snapshot messages and acknowledgements; worlds include ordinal items, two UUID types of different sizes a 300-word item that forces a multi-part transfer, and three different worlds with equal checksums; whenever the receiver accepts a tick its snapshot equals the sender's through items() and item(type,id); on error the acknowledged tick does not move to that tick; nothing panics; plus linear histories of 101..250 snapshots delivered in order with acknowledgements never / regularly / once (the stores on both sides hold 100 snapshots)",
         true,
     );
 }
